@@ -226,15 +226,43 @@ Definition snap_same_data (a b : snap) : bool :=
   list_eqb (map_eqb cval_eq_dec) (sn_cache a) (sn_cache b) && map_eqb addrs_eq_dec (sn_table a) (sn_table b) &&
   list_eqb String.eqb (sn_versions a) (sn_versions b) && list_eqb (opt_eqb names_eqb) (sn_watched a) (sn_watched b).
 
+(** a reply owed for a response that was handled while the sender was held inside a Send:
+    (type, echoed nonce, version it must carry, whether it is a NACK) *)
+Definition owed_reply := (rtype * string * string * bool)%type.
+Definition owed_eqb (a b : owed_reply) : bool :=
+  let '(t1, n1, v1, e1) := a in let '(t2, n2, v2, e2) := b in
+  rtype_eqb t1 t2 && String.eqb n1 n2 && String.eqb v1 v2 && Bool.eqb e1 e2.
+Definition answers (w : owed_reply) (sq : N * request) : bool :=
+  let '(t, n, v, e) := w in let q := snd sq in
+  rtype_eqb (q_type q) t && String.eqb (q_nonce q) n && String.eqb (q_version q) v && Bool.eqb (q_error q) e.
+(** every owed reply is on the wire (a response repeated with the same nonce is answered as often as it came) *)
+Definition owed_ok (owed : list owed_reply) (reqs : list (N * request)) : bool :=
+  forallb (fun w => Nat.leb (length (filter (owed_eqb w) owed)) (length (filter (answers w) reqs))) owed.
+
 (** [live]: the sender still has a stream (no Send failure since the last (re)connect) *)
-Fixpoint c02_ok (o : oracle) (prev : snap) (live : bool) (pend : bool) (tr : list (op * step_obs)) : bool :=
+Fixpoint c02_ok (o : oracle) (prev : snap) (live : bool) (pend : bool) (owed : list owed_reply) (tr : list (op * step_obs)) : bool :=
   match tr with
   | [] => true
   | (x, ob) :: r =>
       let sn := so_snap ob in
       if pend || so_deferred ob then
-        (* the sender is held in a Send: the replies of this region are observed at its end, see C03/C04's quiescence clauses *)
-        c02_ok o sn (match x with OSendErr => false | ORecvErr false => true | _ => live end) (so_deferred ob) r
+        (* the sender is held in a Send: the replies of this region are observed at its end (the first step that is
+           not deferred); a stream failure inside the region cancels what was owed on the old stream *)
+        let live1 := match x with OSendErr => false | ORecvErr false => true | _ => live end in
+        let owed1 :=
+          match x with
+          | OResp ver nonce p =>
+              let t := payload_type p in
+              match snap_watched prev t with
+              | Some _ => if sn_closed prev then owed
+                          else (owed ++ [(t, nonce, if payload_ok o p then ver else snap_version prev t, negb (payload_ok o p))])%list
+              | None => owed
+              end
+          | OSendErr | ORecvErr _ => []
+          | _ => owed
+          end in
+        (if so_deferred ob then true else negb live1 || owed_ok owed1 (so_reqs ob)) &&
+        c02_ok o sn live1 (so_deferred ob) (if so_deferred ob then owed1 else []) r
       else
       let live' := match x with OSendErr => false | ORecvErr false => negb (sn_closed prev) || live | _ => live end in
       match x with
@@ -264,9 +292,9 @@ Fixpoint c02_ok (o : oracle) (prev : snap) (live : bool) (pend : bool) (tr : lis
       | ORespUnknown => match so_reqs ob with [] => true | _ => false end && snap_same_data prev sn &&
                         list_eqb String.eqb (sn_nonces prev) (sn_nonces sn)
       | _ => true
-      end && c02_ok o sn live' false r
+      end && c02_ok o sn live' false [] r
   end.
-Definition spec_c02 (k : sys_case) : bool := negb (sk_fatal k) && c02_ok (sk_oracle k) (start_snap k) true false (sk_trace k).
+Definition spec_c02 (k : sys_case) : bool := negb (sk_fatal k) && c02_ok (sk_oracle k) (start_snap k) true false [] (sk_trace k).
 
 (** ---- C03: requests carry exactly the interest set; it changes only by subscriptions / misses ---- *)
 Definition grows_by (a b : option (list string)) (n : string) : bool :=
